@@ -9,7 +9,8 @@ from datetime import timedelta
 from . import common, store
 
 common.use_repo()
-VALS = {"v1": "alpha", "v2": "beta", "L1": ["a", "b"], "L0": [], "L2": ["alpha"], "null": None, "i3": 3}
+RX = {"alpha": ["alpha", "al+pha", "^alpha", "alph"], "beta": ["beta", "b.ta", "beta$", "eta"], "any": [""], "dot": ["."], "never": ["gamma", "^lpha", "ALPHA"]}
+VALS = {"v1": "alpha", "v2": "beta", "v12": "alpha beta", "e": "", "L1": ["a", "b"], "L0": [], "L2": ["alpha"], "null": None, "i3": 3}
 KEYS = ["k1", "k2", "k3"]
 
 
@@ -70,8 +71,8 @@ def small_events():
 def run_cases(args):
     seed, cases = args
     from aw_core.models import Event
-    from aw_transform import (chunk_events_by_key, filter_keyvals, limit_events, merge_events_by_keys, sort_by_duration,
-                              sort_by_timestamp, sum_durations)
+    from aw_transform import (chunk_events_by_key, concat, filter_keyvals, filter_keyvals_regex, limit_events, merge_events_by_keys,
+                              sort_by_duration, sort_by_timestamp, sum_durations)
     rnd = random.Random(seed)
     cg = Cg(rnd)
     tr = []
@@ -103,4 +104,12 @@ def run_cases(args):
             outf = filter_keyvals(inp, c[2], vals, False)
             outx = filter_keyvals(inp, c[2], vals, True)
             tr.append({"op": op, "inp": pin, "key": c[2], "vals": list(c[3]), "outf": cg.proj(outf), "outx": cg.proj(outx), "inp2": cg.proj(inp)})
+        elif op == "concat":
+            inb = cg.mk(c[2], Event)
+            pinb = cg.proj(inb)
+            out = concat(inp, inb)
+            tr.append({"op": op, "inp": pin, "inpb": pinb, "out": cg.proj(out), "inp2": cg.proj(inp), "inpb2": cg.proj(inb)})
+        elif op == "regex":
+            out = filter_keyvals_regex(inp, c[2], c[4])
+            tr.append({"op": op, "inp": pin, "key": c[2], "rx": c[3], "out": cg.proj(out), "inp2": cg.proj(inp)})
     return tr
